@@ -14,7 +14,7 @@
  * Script (one item per line):
  *   RUN <id>
  *   IN <sid> <hex|->                input stream of session sid
- *   OP <sid> START <fill>           fill: 0..255 memset value, -1 keep struct bytes
+ *   OP <sid> START <fill>           struct zeroed; fill > 0: string storage/counters/heap pointers poisoned with fill; -1 keep bytes
  *   OP <sid> FEED <lo> <hi> <modes> <flags>
  *   OP <sid> CONT <modes> <flags>   continue a chunk left pending by mode 2
  *   OP <sid> FEED0
@@ -34,6 +34,7 @@
  *   R <id>
  *   H <op> <sid> <hook> <inval> <pos> <snap>     (h: same, fired on a forked clone during FORK_END)
  *   C <op> <sid> <KIND> <code> <pos> <ticks> <state> <snap>
+ *       KIND: START FEED REFEED REFEED1 FEED0 END FEND FREE; ENDC/FENDC = re-invocation of end() after it returned a yield code
  *   K <op> <sid> <n> <messages>          (only when a memory law is violated)
  *   X <op> <sid> <SPIN|SLOW|LIVELOCK|YSLOW> <detail>
  *   L <op> <sid> <nblocks> <bytes>       (blocks allocated by generated code still live after FREE)
@@ -58,6 +59,7 @@ int shim_feed(const uint8_t **cur, const uint8_t *end, void *st);
 int shim_end(void *st);
 void shim_free(void *st);
 void shim_set_hooks(void *st);
+void shim_poison(void *st, int fill);
 void shim_snapshot(void *st);
 int shim_check(void *st, int phase);
 void *shim_clone(void *st);
@@ -259,8 +261,10 @@ void drv_hook(int idx, unsigned inval, void *st)
 
 static void report_abort(int kind)
 {
-    printf("X %ld %d %s ticks=%llu budget=%llu cyclen=%llu hits=%llu\n", g_op, g_sid,
-           kind == 1 ? "SPIN" : "SLOW", g_ticks, g_budget, g_cyclen, g_hits);
+    snap_reset();
+    if (g_st) shim_snapshot(g_st);
+    printf("X %ld %d %s ticks=%llu budget=%llu cyclen=%llu hits=%llu snap=%s\n", g_op, g_sid,
+           kind == 1 ? "SPIN" : "SLOW", g_ticks, g_budget, g_cyclen, g_hits, g_snaplen ? g_snap : "-");
 }
 
 static void do_check(sess_t *s, void *st, int phase)
@@ -284,7 +288,7 @@ static void run_end(sess_t *s, void *st, const char *kind, int is_clone)
         const char *sn;
         if (is_clone) { snap_reset(); shim_snapshot(st); sn = g_snaplen ? g_snap : "-"; }
         else sn = snap_for(s, st);
-        printf("C %ld %d %s %s %lld %llu %u %s\n", g_op, g_sid, kind, shim_code_name(rc), (long long)-2,
+        printf("C %ld %d %s%s %s %lld %llu %u %s\n", g_op, g_sid, kind, ny ? "C" : "", shim_code_name(rc), (long long)-2,
                g_ticks, shim_get_state(st), sn);
         if (shim_code_class(rc) != 4) return;
         /* yield from end(): re-invoke end; exact repeat => livelock */
@@ -334,7 +338,8 @@ static void feed_loop(sess_t *s, const char *modes, const char *flags, const cha
         else {
             size_t n = shim_config(s->st, g_cfg_cur, CFGCAP);
             if (ny > 0 && n == ycfglen && memcmp(g_cfg_cur, ycfg, n) == 0) {
-                printf("X %ld %d LIVELOCK feed-yields=%d\n", g_op, g_sid, ny);
+                snap_reset(); shim_snapshot(s->st);
+                printf("X %ld %d LIVELOCK feed-yields=%d snap=%s\n", g_op, g_sid, ny, g_snaplen ? g_snap : "-");
                 s->dead = 1; drop_block(s); return;
             }
             if ((ny & (ny - 1)) == 0) { memcpy(ycfg, g_cfg_cur, n); ycfglen = n; }
@@ -449,7 +454,9 @@ int main(int argc, char **argv)
                 size_t sz = shim_state_size();
                 if (s->block) drop_block(s);
                 if (!s->st) { s->st = malloc(sz); if (fill < 0) fill = 0; }
-                if (fill >= 0) memset(s->st, fill, sz);
+                /* scalars are zeroed (the caller's job, as example/http_test.c does); string storage, counters and
+                   heap pointers are poisoned with <fill> so that nothing start() must initialise is pre-initialised */
+                if (fill >= 0) { memset(s->st, 0, sz); if (fill > 0) shim_poison(s->st, fill); }
                 shim_set_hooks(s->st);
                 s->live = 1; s->dead = 0;
                 volatile int rc = -1;
